@@ -46,4 +46,10 @@ def ids (r : Except Fuzzy.Panic (List (Nat × Q))) : Option (List Nat) :=
   | .ok l => some (l.map (·.1))
   | .error _ => none
 
+/-- outcome of the matcher on one target: `none` = the library panics (index out of range) -/
+def outcome (r : Except Fuzzy.Panic (Option (Int × List Nat))) : Option (Option (Int × List Nat)) :=
+  match r with
+  | .ok m => some m
+  | .error _ => none
+
 end Wtf.Example
